@@ -58,7 +58,7 @@ pub fn table() -> Table {
     }
 }
 
-pub const N_KINDS: usize = 8;
+pub const N_KINDS: usize = 9;
 
 fn small_packet() -> ParsedPacket {
     let mut a = Asm::header(1, 0x8180, 1, 1, 0, 0);
@@ -119,9 +119,14 @@ impl ThreadState {
                 let s = CString::new(format!("big.example. 0 IN TXT \"{}\"", "z".repeat(600))).unwrap();
                 unsafe { (self.t.add_to_answer)(&mut self.big, &mut self.err, s.as_ptr()) }
             }
-            _ => {
+            7 => {
                 let src = [1u8, b'q', 7, b'e', b'x', b'a', b'm', b'p', b'l', b'e', 0];
                 unsafe { (self.t.rename)(&mut self.small, &mut self.err, src.as_ptr(), 0, src.as_ptr(), src.len(), true) }
+            }
+            _ => {
+                // record text that is not UTF-8 (refused before the native parser sees it)
+                let s = CString::new(vec![b'a', 0xff, 0xfe, b' ', b'1']).unwrap();
+                unsafe { (self.t.add_to_answer)(&mut self.small, &mut self.err, s.as_ptr()) }
             }
         }
     }
@@ -191,6 +196,8 @@ pub fn native_descriptions() -> Vec<String> {
         small.insert_rr_from_string(Section::Question, "second.example. 0 IN A 1.2.3.4").err().map(|e| e.to_string()).unwrap_or_default(),
         big.insert_rr_from_string(Section::Answer, &format!("big.example. 0 IN TXT \"{}\"", "z".repeat(600))).err().map(|e| e.to_string()).unwrap_or_default(),
         small.rename_with_raw_names(&src[..0], &src, true).err().map(|e| e.to_string()).unwrap_or_default(),
+        // no native counterpart (the native call takes a &str); today the table answers like for unparsable text
+        DSError::ParseError.to_string(),
     ]
 }
 
@@ -227,7 +234,9 @@ pub fn expected_descriptions() -> Setup {
                         j, i, v[i], native[j], native[i]
                     ));
                 }
-                return Setup::Blocked(format!("failure kinds {} and {} share the description {:?}", i, j, v[i]));
+                // two kinds that read alike natively too (unparsable text / text that is not UTF-8): fine, the
+                // schedules then simply cannot tell these two apart
+                continue;
             }
         }
     }
@@ -475,6 +484,41 @@ pub fn run(ctx: &mut Ctx) {
         }
     };
     check_observer(ctx, &mut observer, "after the forced schedules");
+    // (a'') very many failures on one thread between two reads (counters of 8 or 16 bits wrap)
+    for case in ctx.phase("many-failures", if ctx.tier == "miri" { 1 } else { 4 }) {
+        ctx.begin_case(case);
+        let n: usize = if ctx.tier == "miri" { 256 } else { [256usize, 65536, 65536, 131072][case as usize % 4] };
+        let first = 2 + (case as usize % 5);
+        let w = want.clone();
+        let got = std::thread::spawn(move || {
+            let mut st = ThreadState::new();
+            st.fail(first);
+            let r0 = st.read();
+            for _ in 0..n - 1 {
+                st.fail(0);
+            }
+            st.fail(1);
+            let kept_before = st.read();
+            (r0, kept_before)
+        })
+        .join();
+        ctx.evaluations += 1;
+        ctx.count("many_failures_cases");
+        ctx.count_n("failures_between_two_reads", n as u64);
+        match got {
+            Err(_) => ctx.violation("C16", "many-failures|panic".into(), format!("a thread panicked during {} failing calls in a row", n), &[]),
+            Ok((r0, r1)) => {
+                if r0.as_deref() != Some(w[first].as_str()) || r1.as_deref() != Some(w[1].as_str()) {
+                    ctx.violation(
+                        "C16",
+                        "many-failures|wrong-description".into(),
+                        format!("read after the first failure: {:?} (want {:?}); after exactly {} further failures, the last of another kind: {:?} (want {:?})", r0, w[first], n, r1, w[1]),
+                        &[],
+                    );
+                }
+            }
+        }
+    }
     // (a') a failing iterator call made by a helper thread while the iterating thread waits in its callback: the
     //      helper reads its own failure, the iterating thread's earlier description stays intact
     for case in ctx.phase("callback-helper", if reduced { 4 } else { 64 }) {
